@@ -4,7 +4,16 @@ import json, os, re, subprocess, sys, time, fcntl, shutil, hashlib
 
 ROOT = os.path.dirname(os.path.dirname(os.path.abspath(__file__)))
 SPEC = os.path.join(ROOT, "spec")
-WORK = os.path.join(ROOT, ".work")
+WORK_BASE = os.path.join(ROOT, ".work")
+WORK = WORK_BASE                              # scratch of this check (set_work: .work/w_<property>), so that checks can run side by side
+CACHE = os.path.join(WORK_BASE, "cache")      # shared: transition covers keyed by specification + extracted programs (written atomically)
+
+
+def set_work(tag):
+    global WORK
+    WORK = os.path.join(WORK_BASE, "w_" + tag)
+    os.makedirs(WORK, exist_ok=True)
+
 HARNESS = os.path.join(ROOT, "harness")
 EVID = os.path.join(ROOT, "evidence")
 REPLAYS = os.path.join(ROOT, "replays")
@@ -149,15 +158,24 @@ def behaviours_from_edges(edges, max_paths=None):
 
 
 def write_behaviours(path, behaviours, header):
-    with open(path, "w") as f:
+    tmp = f"{path}.{os.getpid()}.tmp"        # atomically: another check may be reading or producing the same cache entry
+    with open(tmp, "w") as f:
         for i, b in enumerate(behaviours):
             f.write(json.dumps({"hdr": header, "n": i, "steps": b}) + "\n")
+    os.replace(tmp, path)
+
+
+def write_json_atomic(path, obj):
+    tmp = f"{path}.{os.getpid()}.tmp"
+    with open(tmp, "w") as f:
+        json.dump(obj, f)
+    os.replace(tmp, path)
 
 
 # ------------------------------------------------------------------------------------------ harness
 def cargo_lock():
-    os.makedirs(WORK, exist_ok=True)
-    f = open(os.path.join(WORK, "cargo.lock"), "w")
+    os.makedirs(WORK_BASE, exist_ok=True)
+    f = open(os.path.join(WORK_BASE, "cargo.lock"), "w")
     fcntl.flock(f, fcntl.LOCK_EX)
     return f
 
